@@ -5,7 +5,7 @@ package assembly
 // Race-free variants: the service objects built by heimdall's own newService
 // functions (overlay exports) are served on listeners the harness creates with
 // port 0 and keeps, instead of letting heimdall bind a port number that
-// testsupport.GetFreePort found free a moment ago.  (Under parallel load that
+// testsupport.GetFreePort found free a moment ago (see "ports" in assembly.go).  (Under parallel load that
 // port can be gone again, and heimdall's lifecycle manager then logs Fatal,
 // i.e. calls os.Exit, which takes the whole driver down.)
 //
@@ -36,7 +36,6 @@ import (
 	envoy_extauth "github.com/dadrus/heimdall/internal/handler/envoyextauth/grpcv3"
 	"github.com/dadrus/heimdall/internal/handler/proxy"
 	"github.com/dadrus/heimdall/internal/rules/rule"
-	"github.com/dadrus/heimdall/internal/x/testsupport"
 )
 
 // EnvoyApp is the heimdall application of `serve decision --envoy-grpc` whose real gRPC server
@@ -57,19 +56,14 @@ func prepareDir(mode Mode, cfgYAML, rulesYAML string) (dir, cfgPath string, err 
 		return "", "", err
 	}
 
-	svcPort, err := testsupport.GetFreePort() // part of the configuration only, never bound
+	svcPort, err := freePort() // part of the configuration only, never bound
 	if err != nil {
 		os.RemoveAll(dir)
 
 		return "", "", err
 	}
 
-	mgmtPort, err := testsupport.GetFreePort()
-	if err != nil {
-		os.RemoveAll(dir)
-
-		return "", "", err
-	}
+	mgmtPort := 0 // nobody talks to the management service here: heimdall's own Listen picks a free port (no race)
 
 	rulesPath := filepath.Join(dir, "rules.yaml")
 	if err = os.WriteFile(rulesPath, []byte(rulesYAML), 0o600); err != nil {
